@@ -54,6 +54,11 @@ def searchCandidates : List String := Id.run do
     match parse b with
     | .ok _ => out := out ++ [s!"parse {hex b}"]
     | .error _ => pure ()
+  -- more than 18 fractional digits as written must be rejected, also when the excess is zeros
+  for over in [[49, 46] ++ List.replicate 19 48, [48, 46, 53] ++ List.replicate 18 48, [48, 46] ++ List.replicate 30 48] do
+    match parse over with
+    | .ok _ => out := out ++ [s!"parse {hex over}"]
+    | .error _ => pure ()
   -- the decimal string of 2^256 must not wrap
   let top := (SafeNet.Dec.toDigits (U256 / Gen.Amount.rawConv)).map (· + 48) ++ [46] ++
     (SafeNet.Dec.padLeft 18 (SafeNet.Dec.toDigits (U256 % Gen.Amount.rawConv))).map (· + 48)
